@@ -263,7 +263,8 @@ def run_lines_hang_aware(binary, lines, hang_output, args=("lines",), chunk_time
         try:
             return _run_chunk(binary, ch, args, chunk_timeout, env)
         except CheckError as e:
-            if "exited 124" not in str(e):
+            # 124: timeout(1) ended it; 137 / -9: killed (a spinning call can also exhaust memory first)
+            if not any(x in str(e) for x in ("exited 124", "exited 137", "exited -9")):
                 raise
         except subprocess.TimeoutExpired:
             pass
@@ -271,7 +272,7 @@ def run_lines_hang_aware(binary, lines, hang_output, args=("lines",), chunk_time
             try:
                 return _run_chunk(binary, [ln], args, case_timeout, env)[0]
             except CheckError as e:
-                if "exited 124" not in str(e):
+                if not any(x in str(e) for x in ("exited 124", "exited 137", "exited -9")):
                     raise
                 return hang_output
             except subprocess.TimeoutExpired:
